@@ -51,6 +51,7 @@ package middleware
 //@ func Trace$1$1
 //@   params w r
 //@   property C19 C20
+//@   locals traceID:string discarded:bool discard:*regexp.Regexp spanID:string parentID:string ctx:context.Context
 //@   captures o:*middleware.TraceOptions sampler:middleware.Sampler h:http.Handler
 //@   requires w != nil && r != nil && r.ctx != nil && h != nil && o != nil && sampler != nil
 //@   requires middleware.TraceIDKey != middleware.TraceSpanIDKey && middleware.TraceIDKey != middleware.TraceParentSpanIDKey && middleware.TraceSpanIDKey != middleware.TraceParentSpanIDKey
@@ -62,6 +63,8 @@ package middleware
 //@   ensures* parent: inT != "" && inP != "" ==> shas(r2.ctx, middleware.TraceParentSpanIDKey) && sval(r2.ctx, middleware.TraceParentSpanIDKey) == inP
 //@   ensures* span: inT != "" ==> shas(r2.ctx, middleware.TraceSpanIDKey) && sval(r2.ctx, middleware.TraceSpanIDKey) == lastSpanID
 //@   ensures* unsampled: inT == "" && (sampleCalls == old(sampleCalls) || !lastSample) ==> servedReq == r
+//@   ensures* discarded: inT == "" && r.URL != nil && (exists i int :: 0 <= i && i < len(old(o.discards)) && reMatches(old(o.discards[i]), old(r.URL.Path))) ==> servedReq == r && sampleCalls == old(sampleCalls)
+//@   loop 1 invariant none.matched: !discarded && ranged(1) == old(o.discards) && (forall j int :: 0 <= j && j <= rangeidx(1) ==> !reMatches(ranged(1)[j], old(r.URL.Path)))
 //@   ensures* sampled: inT == "" && sampleCalls != old(sampleCalls) && lastSample ==> shas(r2.ctx, middleware.TraceIDKey) && sval(r2.ctx, middleware.TraceIDKey) == lastTraceID || lastTraceID == ""
 //@   modifies* servedCount, servedReq, servedW, lastSample, sampleCalls, lastTraceID, lastSpanID
 //@   frameprop C20
